@@ -29,6 +29,6 @@ __CPROVER_ensures(/* only default elements appended at the back, or elements rem
     template=TEMPLATE,
     jobs=[Job('resize', 'h_resize', enforce=['resize'], replace=['xv_push_back_default', 'xv_pop_back'], loop_contracts=True, reach='all', timeout=300, min_obligations=4)],
     mutants=[Mutant('bound_recomputed_each_pass', XD, r'const size_type     theCount = newSize - size\(\);\s*for \(size_type i = 0; i < theCount; \+\+i\)', 'for (size_type i = 0; i < newSize - size(); ++i)', expect='exactly newSize')],
-    mechanisms=['XalanDeque block management (resize)'],
+    mechanisms=['XalanDeque block management (resize)', 'deque block management'],
     assumptions=['push_back / pop_back change the size by one (the block index is not modelled)'],
 )
